@@ -401,6 +401,12 @@ def run(ctx):
     except Exception as ex:
         viol.append({"kind": "correspondence could not be evaluated", "error": repr(ex)[:800], "no_failing_input_found": True})
     try:
+        import synsel
+        evals += synsel.synapse_selection_section(ctx, viol)
+    except Exception as ex:
+        import traceback
+        viol.append({"kind": "synapse selection section raised", "error": repr(ex)[:300], "trace": traceback.format_exc()[-500:]})
+    try:
         evals += select_and_lazy_section(ctx, viol)
     except Exception as ex:
         import traceback
